@@ -162,16 +162,24 @@ Definition hop_own (k : string) (vs : list string) : bool :=
   (String.eqb k "User-Agent" && strs_eqb vs ["Go-http-client/1.1"]).
 
 (** *** the property on observables *)
-Definition prop_e2e (c : e2e_case) (x : e2e_obs) : bool :=
+(** what the `header` section of the ResponseAdaptor makes of the values of one key *)
+Definition edit_values (e : hedit) (k : string) (base : list string) : list string :=
+  let has (l : list string) := existsb (fun c => String.eqb k (canon_key c)) l in
+  let b1 := if has (he_del e) then [] else base in
+  let b2 := fold_left (fun acc kv => if String.eqb k (canon_key (fst kv)) then [snd kv] else acc) (he_set e) b1 in
+  fold_left (fun acc kv => if String.eqb k (canon_key (fst kv)) then (acc ++ [snd kv])%list else acc) (he_add e) b2.
+Definition edit_keys (e : hedit) : list string :=
+  map canon_key (he_del e ++ map fst (he_set e) ++ map fst (he_add e))%list.
+
+(** request side: what the backend received against what the client sent *)
+Definition prop_req (c : e2e_case) (x : e2e_obs) : bool :=
   let f := case_fns c in
   let cfg := e_cfg c in
   let ch := mk_headers (e_hdrs c) in
-  let bh := mk_headers (e_resp_hdrs c) in
   match e_client c, decode f ch (e_body c) with
   | Some (path, query), Some content =>
-      let ra := p_ra cfg in let rs := p_rs cfg in
+      let ra := p_ra cfg in
       let want_b := if a_on ra && nonempty (a_body ra) then a_body ra else content in
-      (* request side *)
       (x_bcount x =? 1) &&
       String.eqb (x_bmethod x) (e_method c) &&
       opt_eqb pair_eqb (x_bparsed x) (Some (path, query)) &&
@@ -189,20 +197,36 @@ Definition prop_e2e (c : e2e_case) (x : e2e_obs) : bool :=
                         else negb (h_has_exact k (x_bheaders x)))
               spec_hop_keys &&
       String.eqb (x_bhost x)
-                 (if negb (p_host_is_name cfg) || p_keep_host cfg then e_host c else p_server_host cfg) &&
-      (* response side *)
-      x_got x && (x_status x =? e_resp_status c) &&
-      forallb (fun k =>
-                 if mem k (CE :: "Vary" :: "Content-Length" :: spec_hop_keys) then true
-                 else strs_eqb (h_values_exact k (x_headers x)) (h_values_exact k bh))
-              (keys bh) &&
-      match (if a_on rs && nonempty (a_body rs) then Some (a_body rs) else decode f bh (e_resp_body c)) with
-      | Some want => opt_eqb String.eqb (x_dec x) (Some want)
-      | None => true
-      end &&
-      x_frame x
+                 (if negb (p_host_is_name cfg) || p_keep_host cfg then e_host c else p_server_host cfg)
   | _, _ => true
   end.
+
+(** response side: what the client received against the backend answer scripted in [src]
+    (the step itself, or - for a cache hit - an earlier step), under the ResponseAdaptor
+    settings [cfg] / [ed] *)
+Definition prop_resp (cfg : pcfg) (ed : hedit) (src : e2e_case) (x : e2e_obs) : bool :=
+  let f := case_fns src in
+  let bh := mk_headers (e_resp_hdrs src) in
+  let rs := p_rs cfg in
+  x_got x && (x_status x =? e_resp_status src) &&
+  forallb (fun k =>
+             if mem k (CE :: "Vary" :: "Content-Length" :: spec_hop_keys) then true
+             else strs_eqb (h_values_exact k (x_headers x)) (edit_values ed k (h_values_exact k bh)))
+          (keys bh ++ edit_keys ed)%list &&
+  match (if a_on rs && nonempty (a_body rs) then Some (a_body rs) else decode f bh (e_resp_body src)) with
+  | Some want => opt_eqb String.eqb (x_dec x) (Some want)
+  | None => true
+  end &&
+  x_frame x.
+
+Definition request_ok (c : e2e_case) : bool :=
+  match e_client c, decode (case_fns c) (mk_headers (e_hdrs c)) (e_body c) with
+  | Some _, Some _ => true
+  | _, _ => false
+  end.
+
+Definition prop_e2e (c : e2e_case) (x : e2e_obs) : bool :=
+  if request_ok c then prop_req c x && prop_resp (e_cfg c) no_edit c x else true.
 
 (** *** attribution *)
 Definition flag (q : quirks) (i : N) : bool :=
@@ -265,6 +289,98 @@ Definition check_e2e_with (pinned : quirks) (c : e2e_case) : result :=
   (corr, prop, class_e2e c, if prop then 0%N else if corr then attribute pinned c else 0%N).
 
 Definition explain_e2e_with (pinned : quirks) (c : e2e_case) := obs_of_outcome c (run_model pinned c).
+
+(** ** histories against one pipeline with a memoryCache *)
+Record hist_case := {
+  hi_spec : cache_spec; hi_edit : hedit;
+  hi_steps : list e2e_case;
+  hi_bad : bool
+}.
+
+Definition case_cfg (h : hist_case) : pcfg :=
+  match hi_steps h with c :: _ => e_cfg c | [] =>
+    {| p_cstream := false; p_sstream := false; p_server_host := ""; p_host_is_name := false; p_keep_host := false;
+       p_minlen := None; p_ra := {| a_on := false; a_body := ""; a_compress := false; a_decompress := false |};
+       p_rs := {| a_on := false; a_body := ""; a_compress := false; a_decompress := false |} |} end.
+
+Fixpoint run_hist (q : quirks) (h : hist_case) (st : cache) (steps : list e2e_case) : list outcome :=
+  match steps with
+  | [] => []
+  | c :: t =>
+      let '(o, st') := step q (case_fns c) (case_cfg h) (hi_edit h) (hi_spec h) st (case_creq c) (case_bresp c) in
+      o :: run_hist q h st' t
+  end.
+
+Definition same_request (a b : e2e_case) : bool :=
+  String.eqb (e_method a) (e_method b) && String.eqb (e_host a) (e_host b) &&
+  match e_client a, e_client b with
+  | Some (p, _), Some (p', _) => String.eqb p p'
+  | _, _ => false
+  end.
+
+(** the property per step.  A step whose request reached the backend is judged as in the
+    single-exchange cases.  A step answered without contacting the backend (cache hit) must
+    deliver, well-framed, the status / end-to-end headers / content of the backend answer of
+    SOME earlier step for the same method, host and path that did reach the backend *)
+Fixpoint prop_steps (h : hist_case) (earlier : list e2e_case) (steps : list e2e_case) : bool :=
+  match steps with
+  | [] => true
+  | c :: t =>
+      let x := e_obs c in
+      (if negb (request_ok c) then true
+       else if x_bcount x =? 0 then
+         existsb (fun j => same_request j c && (x_bcount (e_obs j) =? 1) && prop_resp (case_cfg h) (hi_edit h) j x) earlier
+       else prop_req c x && prop_resp (case_cfg h) (hi_edit h) c x) &&
+      prop_steps h (c :: earlier) t
+  end.
+
+Fixpoint corr_steps (steps : list e2e_case) (outs : list outcome) : bool :=
+  match steps, outs with
+  | [], [] => true
+  | c :: t, o :: t' => corr_e2e (obs_of_outcome c o) (e_obs c) && canon_ok c && corr_steps t t'
+  | _, _ => false
+  end.
+
+Definition hits (h : hist_case) : nat :=
+  List.length (filter (fun c => x_got (e_obs c) && (x_bcount (e_obs c) =? 0) && request_ok c) (hi_steps h)).
+
+(** prop on the model's own outcomes (for attribution) *)
+Fixpoint with_obs (steps : list e2e_case) (outs : list outcome) : list e2e_case :=
+  match steps, outs with
+  | c :: t, o :: t' =>
+      {| e_cfg := e_cfg c; e_method := e_method c; e_target := e_target c; e_host := e_host c; e_hdrs := e_hdrs c;
+         e_body := e_body c; e_resp_status := e_resp_status c; e_resp_hdrs := e_resp_hdrs c; e_resp_enc := e_resp_enc c;
+         e_resp_body := e_resp_body c; e_gzip := e_gzip c; e_gunzip := e_gunzip c; e_client := e_client c; e_esc := e_esc c;
+         e_out_dec := e_out_dec c; e_out_esc := e_out_esc c; e_parse := e_parse c; e_canon := e_canon c; e_bad := e_bad c;
+         e_obs := obs_of_outcome c o |} :: with_obs t t'
+  | _, _ => []
+  end.
+
+Definition model_prop_hist (q : quirks) (h : hist_case) : bool :=
+  prop_steps h [] (with_obs (hi_steps h) (run_hist q h [] (hi_steps h))).
+
+Definition attribute_hist (pinned : quirks) (h : hist_case) : N :=
+  if model_prop_hist pinned h then 0%N else
+  let on := filter (flag pinned) flags in
+  match filter (fun i => model_prop_hist (clear pinned i) h) on with
+  | i :: _ => i
+  | [] => if model_prop_hist (fold_left clear on pinned) h then hd 0%N on else 0%N
+  end.
+
+Definition check_hist_with (pinned : quirks) (h : hist_case) : result :=
+  if hi_bad h || existsb e_bad (hi_steps h) then (false, false, 1%N, 0%N) else
+  let corr := corr_steps (hi_steps h) (run_hist pinned h [] (hi_steps h)) in
+  let prop := prop_steps h [] (hi_steps h) in
+  (corr, prop,
+   match hi_steps h with
+   | [] => 0%N
+   | _ => (1 + bN (mc_on (hi_spec h)) 1 + bN (Nat.ltb 0 (hits h)) 2 + bN (Nat.ltb 1 (hits h)) 4
+             + bN (a_on (p_rs (case_cfg h))) 8 + bN (negb (Nat.eqb (List.length (edit_keys (hi_edit h))) 0)) 16)%N
+   end,
+   if prop then 0%N else if corr then attribute_hist pinned h else 0%N).
+
+Definition explain_hist_with (pinned : quirks) (h : hist_case) :=
+  map (fun co => obs_of_outcome (fst co) (snd co)) (combine (hi_steps h) (run_hist pinned h [] (hi_steps h))).
 
 (** ** cloneHeader called directly (package proxy) *)
 Record hop_case := { hc_in : headers; hc_out : headers; hc_canon : list (string * string) }.
